@@ -1,0 +1,92 @@
+//! Observation hooks for external verification tooling.
+//!
+//! Compiled only with the `verif` cargo feature; with the feature off none of
+//! this exists and no hook site is compiled in. The hooks never change what
+//! pyxis computes, with one exception that exists on purpose: an installed
+//! scheduler decides the order in which `TypeRegistry::unresolved()` reports
+//! the unresolved items (by default that order is whatever the `HashMap`
+//! iteration yields), so resolution schedules can be enumerated rather than
+//! sampled.
+
+use std::cell::RefCell;
+
+use crate::grammar::ItemPath;
+
+#[derive(Debug, Clone, PartialEq, Eq)]
+pub enum Replaced {
+    /// No item was registered under this path before.
+    None,
+    /// An item with an identical definition was registered before.
+    Same,
+    /// A different item was registered under this path before.
+    Different,
+}
+
+#[derive(Debug, Clone, PartialEq, Eq)]
+pub enum Outcome {
+    Resolved { size: usize, alignment: usize },
+    Deferred,
+    Failed,
+}
+
+#[derive(Debug, Clone, PartialEq, Eq)]
+pub enum Event {
+    RegistryAdd {
+        path: ItemPath,
+        category: &'static str,
+        resolved: bool,
+        replaced: Replaced,
+        replaced_was_resolved: bool,
+        replaced_category: &'static str,
+    },
+    IterationStart {
+        n: usize,
+        worklist: Vec<ItemPath>,
+    },
+    Attempt {
+        iteration: usize,
+        path: ItemPath,
+        outcome: Outcome,
+    },
+    ExternValuesResolved,
+    BuildEnd {
+        ok: bool,
+    },
+}
+
+type Sink = Box<dyn FnMut(Event)>;
+type Scheduler = Box<dyn FnMut(Vec<ItemPath>) -> Vec<ItemPath>>;
+
+thread_local! {
+    static SINK: RefCell<Option<Sink>> = const { RefCell::new(None) };
+    static SCHEDULER: RefCell<Option<Scheduler>> = const { RefCell::new(None) };
+}
+
+pub fn set_sink(sink: Option<Sink>) {
+    SINK.with(|s| *s.borrow_mut() = sink);
+}
+
+pub fn set_scheduler(scheduler: Option<Scheduler>) {
+    SCHEDULER.with(|s| *s.borrow_mut() = scheduler);
+}
+
+pub(crate) fn emit(event: impl FnOnce() -> Event) {
+    SINK.with(|s| {
+        if let Ok(mut guard) = s.try_borrow_mut() {
+            if let Some(sink) = guard.as_mut() {
+                sink(event());
+            }
+        }
+    });
+}
+
+pub(crate) fn schedule(paths: Vec<ItemPath>) -> Vec<ItemPath> {
+    SCHEDULER.with(|s| {
+        if let Ok(mut guard) = s.try_borrow_mut() {
+            if let Some(scheduler) = guard.as_mut() {
+                return scheduler(paths);
+            }
+        }
+        paths
+    })
+}
